@@ -206,8 +206,10 @@ static struct log_destination *lr_mkdest(const char *name, int refcnt)
 }
 int model_parse_type_sevset(void **type, void *sevset, const char *name)
 {
-    unsigned k = (name == lr_child[1]->name);
-    V_ASSERT(name == lr_child[0]->name || name == lr_child[1]->name, "log_parse_type_sevset contract: called with an entry's name");
+    /* entries are told apart by content ("e0" / "e1"): equality of two string-literal addresses is
+     * not decided by the symbolic executor's simplifier, which would make k (and all that follows) symbolic */
+    unsigned k = (name[1] == '1');
+    V_ASSERT(name[0] == 'e' && (name[1] == '0' || name[1] == '1') && name[2] == '\0', "log_parse_type_sevset contract: called with an entry's name");
     if (in_lr.err[k]) return 1;                                   /* unknown syntax */
     *type = in_lr.ty[k] == 0 ? (void *)&lr_type[0].t : in_lr.ty[k] == 1 ? (void *)&lr_type[1].t : NULL;     /* "*", "t", unknown facility */
     ((struct severity_bitset *)sevset)->bits[0] = in_lr.mask[k];
@@ -246,6 +248,8 @@ static void lr_check_routing(const char *when)
     }
 }
 
+#define LR_SET(E0, T0, M0, N0, E1, T1, M1) do { in_lr.err[0] = E0; in_lr.ty[0] = T0; in_lr.mask[0] = M0; in_lr.v0null = N0; \
+                                                 in_lr.err[1] = E1; in_lr.ty[1] = T1; in_lr.mask[1] = M1; } while (0)
 void h_log_rescan(void)
 {
     static struct conf_node_object root;
@@ -253,11 +257,25 @@ void h_log_rescan(void)
     struct log_destination **pv;
     unsigned i, live_old = 0, refd_a = 0, refd_old = 0, x, s;
     V_IN(in_lr);
-    V_ASSUME(in_lr.ty[0] <= 2 && in_lr.ty[1] <= 2 && in_lr.mask[0] < 64 && in_lr.mask[1] < 64 && in_lr.old_spec < 64);
+    V_ASSUME(in_lr.old_spec < 64);
+    /* the entries' readings are fixed per job (a symbolic facility / severity set makes the set of
+     * open destinations symbolic, which the symbolic executor does not get through):
+     *   err  ty(0 "*", 1 "t", 2 unknown)  severity mask  */
+#if LR_CASE == 0      /* t.>=warning -> a ; t.info,warning -> b ; then entry 1 edited in place */
+    LR_SET(0, 1, 0x38, 0,   0, 1, 0x0c);
+#elif LR_CASE == 1    /* *.* -> a ; t.error -> (b, a) */
+    LR_SET(0, 0, 0x3f, 0,   0, 1, 0x10);
+#elif LR_CASE == 2    /* unknown syntax ; t.debug -> b ; facility t has a default target */
+    LR_SET(1, 1, 0x3f, 0,   0, 1, 0x01);
+#elif LR_CASE == 3    /* t.warning without value ; unknown facility */
+    LR_SET(0, 1, 0x08, 1,   0, 2, 0x3f);
+#else                 /* both entries name the same destination for the same pairs */
+    LR_SET(0, 1, 0x3f, 0,   0, 1, 0x3f);
+#endif
     V_ASSUME(in_lr.old_ref[0] >= 0 && in_lr.old_ref[0] < 1000 && in_lr.old_ref[1] >= 0 && in_lr.old_ref[1] < 1000);
     lr_vt.type_name = "g"; lr_vt.open = lr_open; lr_vt.close = lr_close; lr_vt.log = ghost_log;
     /* facilities "*" < "t" */
-    memset(lr_type, 0, sizeof(lr_type));
+    /* (file-scope objects start zeroed; a memset would turn their fields into byte-level terms) */
     lr_type[0].t.name = "*"; lr_type[1].t.name = "t";
 #if LR_CASE == 2
     lr_type[1].t.default_target = "g:old";
@@ -276,11 +294,10 @@ void h_log_rescan(void)
     lr_type[1].t.logs[LOG_WARNING].vec = pv; lr_type[1].t.logs[LOG_WARNING].size = 4; lr_type[1].t.logs[LOG_WARNING].used = 2;
     lr_type[1].t.specified.bits[0] = in_lr.old_spec;
     /* the section: entry 0 a string (possibly without value), entry 1 a string or a two-item list */
-    memset(&root, 0, sizeof(root)); memset(&lr_c0, 0, sizeof(lr_c0)); memset(&lr_c1s, 0, sizeof(lr_c1s)); memset(&lr_c1l, 0, sizeof(lr_c1l));
     root.base.name = "logs"; root.base.type = CONF_OBJECT;
     lr_c0.s.base.name = "e0"; lr_c0.s.base.type = CONF_STRING; lr_c0.s.base.parent = &root; lr_c0.s.value = in_lr.v0null ? NULL : "g:a";
     lr_c1s.s.base.name = "e1"; lr_c1s.s.base.type = CONF_STRING; lr_c1s.s.base.parent = &root;
-    lr_c1s.s.value = (LR_CASE == 3) ? "g:a" : "g:b";
+    lr_c1s.s.value = (LR_CASE == 4) ? "g:a" : "g:b";
     lr_list2[0] = "g:b"; lr_list2[1] = "g:a";
     lr_c1l.l.base.name = "e1"; lr_c1l.l.base.type = CONF_STRING_LIST; lr_c1l.l.base.parent = &root;
     lr_c1l.l.value.vec = lr_list2; lr_c1l.l.value.used = 2; lr_c1l.l.value.size = 2;
